@@ -873,27 +873,37 @@ func (c *wsConn) readFrame(ctx context.Context, r io.Reader) {
 
 func (c *wsConn) frameExecutor(ctx context.Context) {
 	for {
+		var qf queuedFrame
 		select {
+		case qf = <-c.frameExecQueue:
 		case <-ctx.Done():
-			return
-		case qf := <-c.frameExecQueue:
-			var frame frame
-			if err := json.Unmarshal(qf.buf, &frame); err != nil {
-				log.Warnw("failed to unmarshal frame", "error", err)
-				// todo send invalid request response
-				continue
+			// the connection loop has ended. Frames still in the queue were received
+			// in full before that, on a connection that was working: a notification
+			// among them was reported to its sender as sent and nothing will ever tell
+			// it otherwise, so they are executed, not dropped
+			select {
+			case qf = <-c.frameExecQueue:
+			default:
+				return
 			}
-
-			var err error
-			frame.ID, err = normalizeID(frame.ID)
-			if err != nil {
-				log.Warnw("failed to normalize frame id", "error", err)
-				// todo send invalid request response
-				continue
-			}
-
-			c.handleFrame(ctx, frame, qf.epoch)
 		}
+
+		var frame frame
+		if err := json.Unmarshal(qf.buf, &frame); err != nil {
+			log.Warnw("failed to unmarshal frame", "error", err)
+			// todo send invalid request response
+			continue
+		}
+
+		var err error
+		frame.ID, err = normalizeID(frame.ID)
+		if err != nil {
+			log.Warnw("failed to normalize frame id", "error", err)
+			// todo send invalid request response
+			continue
+		}
+
+		c.handleFrame(ctx, frame, qf.epoch)
 	}
 }
 
